@@ -32,7 +32,7 @@ ValCls   == {"fin", "zero", "neg", "inf", "nan", "tiny"}
 LenCls   == {"len0", "len1", "small", "large"}
 BasisCls == {"valid", "defect", "badenum"}
 
-MCalls == {"New", "Preset", "Free", "FreeNull", "SetTB", "SetTachyon", "Set", "SetPole", "Get", "GetTB", "GetMass", "GetMix",
+MCalls == {"New", "Preset", "PresetPoles", "Free", "FreeNull", "SetTB", "SetTachyon", "SetBigA", "Set", "SetPole", "Get", "GetTB", "GetMass", "GetMix",
            "Convert", "ConvertParams", "CalcMasses", "Amu", "Part", "Unc", "HaveProblem", "StrGet", "SetVerbose"}
 TCalls == {"TNewMass", "TNewGauge", "TAmu", "TUnc", "TFree", "TFreeNull", "SmDefault", "ConfigDefault", "IntToType"}
 
@@ -42,13 +42,13 @@ NeedsTB == {"GetTB", "Convert", "ConvertParams", "CalcMasses", "Amu", "Part", "U
 ProtectedAsIs == {"Convert", "ConvertParams", "CalcMasses", "Amu", "TNewMass", "TNewGauge", "TAmu", "IntToType"}
 Protected(c) == Protection = "full" \/ c \in ProtectedAsIs
 
-VARIABLES m,        \* MSSM handle: [st, tb, calc, tach (a slepton soft mass squared is negative), flag (a problem is flagged: no / calc / maybe)]
+VARIABLES m,        \* MSSM handle: [st, tb, calc, tach (a slepton soft mass squared is negative), flag (a problem is flagged: no / calc / conv / maybe), poles (pole masses set from a spectrum), bigA]
           t,        \* THDM handle: [st, badenum]
           aborted,  \* an exception escaped a wrapper / a buffer was overrun
           hist
 vars == <<m, t, aborted, hist>>
 
-Init == /\ m = [st |-> "null", tb |-> "unset", calc |-> FALSE, tach |-> FALSE, flag |-> "no"]
+Init == /\ m = [st |-> "null", tb |-> "unset", calc |-> FALSE, tach |-> FALSE, flag |-> "no", poles |-> FALSE, bigA |-> FALSE]
         /\ t = [st |-> "null", badenum |-> FALSE]
         /\ aborted = FALSE /\ hist = << >>
 
@@ -63,10 +63,15 @@ TThrows(c) == c \in {"TAmu", "TUnc"} /\ t.badenum
 Escapes(c, throws) == throws /\ ~Protected(c)
 
 MNew == /\ CanCall /\ m.st \in {"null", "freed"}
-        /\ m' = [st |-> "live", tb |-> "unset", calc |-> FALSE, tach |-> FALSE, flag |-> "no"] /\ Rec("New", "-")
+        /\ m' = [st |-> "live", tb |-> "unset", calc |-> FALSE, tach |-> FALSE, flag |-> "no", poles |-> FALSE, bigA |-> FALSE] /\ Rec("New", "-")
         /\ UNCHANGED <<t, aborted>>
 \* a complete valid parameter point through the setters (about 40 C calls)
-MPreset == /\ CanCall /\ m.st = "live" /\ m' = [m EXCEPT !.tb = "fin", !.tach = FALSE] /\ Rec("Preset", "-") /\ UNCHANGED <<t, aborted>>
+MPreset == /\ CanCall /\ m.st = "live" /\ m' = [m EXCEPT !.tb = "fin", !.tach = FALSE, !.bigA = FALSE] /\ Rec("Preset", "-") /\ UNCHANGED <<t, aborted>>
+\* after a successful spectrum calculation: every mass read through its getter and written to the pole-mass setter,
+\* so that a conversion to the on-shell scheme passes its input checks and runs
+MPresetPoles == /\ CanCall /\ m.st = "live" /\ m.calc /\ m' = [m EXCEPT !.poles = TRUE] /\ Rec("PresetPoles", "-") /\ UNCHANGED <<t, aborted>>
+\* a huge A_t: valid input, stop tachyon in the spectrum (a physical problem, not an invalid input)
+MSetBigA == /\ CanCall /\ m.st = "live" /\ m' = [m EXCEPT !.bigA = TRUE] /\ Rec("SetBigA", "-") /\ UNCHANGED <<t, aborted>>
 \* ml2(1,1) < 0: the smuon / sneutrino sector becomes tachyonic, the next spectrum calculation is refused with
 \* gm2calc_PhysicalProblem and leaves the problem flagged (non-empty problem string for the string getters)
 MSetTachyon == /\ CanCall /\ m.st = "live" /\ m' = [m EXCEPT !.tach = TRUE] /\ Rec("SetTachyon", "-") /\ UNCHANGED <<t, aborted>>
@@ -87,8 +92,10 @@ MCalc(c) == /\ CanCall /\ m.st = "live" /\ c \in {"Convert", "ConvertParams", "C
             /\ aborted' = Escapes(c, MThrows(c))
             \* flag: "calc" - calculate_masses refused a tachyonic point and left the problem flagged (certain);
             \*       "maybe" - a conversion was refused on a tachyonic point (it may fail earlier, on missing pole masses)
-            /\ IF m.tach /\ ~MThrows(c)
-               THEN m' = [m EXCEPT !.calc = FALSE, !.flag = IF c = "CalcMasses" THEN "calc" ELSE "maybe"]
+            /\ IF (m.tach \/ m.bigA) /\ ~MThrows(c)
+               THEN m' = [m EXCEPT !.calc = FALSE, !.flag = IF c = "CalcMasses" THEN "calc"
+                                                            ELSE IF m.poles /\ m.bigA /\ ~m.tach THEN "conv"    \* a conversion that ends with a physical problem
+                                                            ELSE "maybe"]
                ELSE \E ok \in BOOLEAN :            \* the calculation may succeed or be refused
                       m' = [m EXCEPT !.calc = ok /\ ~MThrows(c), !.flag = IF ok /\ ~MThrows(c) THEN "no" ELSE m.flag]
             /\ Rec(c, "-") /\ UNCHANGED t
@@ -109,7 +116,7 @@ TFree == /\ CanCall /\ t.st = "live" /\ t' = [t EXCEPT !.st = "freed"] /\ Rec("T
 TMisc(c) == /\ CanCall /\ c \in {"TFreeNull", "SmDefault", "ConfigDefault", "IntToType"}
             /\ Rec(c, "-") /\ UNCHANGED <<m, t, aborted>>
 
-Next == \/ MNew \/ MPreset \/ MFree \/ MFreeNull \/ MSetTachyon
+Next == \/ MNew \/ MPreset \/ MPresetPoles \/ MSetBigA \/ MFree \/ MFreeNull \/ MSetTachyon
         \/ \E v \in ValCls : MSetTB(v)
         \/ \E c \in {"Set", "SetPole", "SetVerbose"}, v \in ValCls : MSet(c, v)
         \/ \E c \in MCalls : MCall(c) \/ MCalc(c)
